@@ -148,6 +148,8 @@ class GlomError(Exception):
         exc_wrapper_type = type(f"GlomError.wrap({exc_type.__name__})", bases, {})
         try:
             wrapper = exc_wrapper_type(*exc.args)
+            if wrapper.args != exc.args:  # constructor rewrites its args: not a faithful re-creation
+                return exc
             wrapper.__wrapped = exc
             return wrapper
         except Exception:  # maybe exception can't be re-created
@@ -2305,6 +2307,8 @@ def glom(target, spec, **kwargs):
             # stack trace with the explicit "raise err" below
             try:
                 err = copy.copy(e)
+                if err.args != e.args:  # constructor rewrites its args: keep the original
+                    err = e
             except Exception:  # exception can't be re-created: keep the original
                 err = e
             err._set_wrapped(e)
